@@ -7,6 +7,12 @@ import os
 HERE = os.path.dirname(os.path.dirname(os.path.abspath(__file__)))
 
 CHECKS = {
+    "C01": dict(
+        level="proof", design="10.5",
+        technique="static analysis: abstract interpretation of transform/compose/inverse/act/Identity over the polynomial ring Q[coefficients] (R-POLY) and exact normal forms modulo the unit-norm relations",
+        text="Decides the exact-arithmetic clause: for SO2, SE2, SO3, SE3, SE_2_3, SGal3 and Rn every cell of T(X.compose(Y)) - T(X)T(Y), T(X.inverse())T(X) - I, X.act(p) - (T(X)[p;e])[:Dim] and T(Identity()) - I is the zero polynomial in the coefficient symbols modulo |rotation part| = 1 (367 identities). Associativity, the two-sided inverse and neutrality of the identity follow from the matrix realisation. Bundles follow from C11. The polynomial domain has a TOP element: anything non-polynomial makes the instance inconclusive (exit 2).",
+        note="NOT decided: the floating-point clause ('to working precision'), overflow at large coordinates. Trusted: exact summaries of Eigen::Quaternion product / conjugate / toRotationMatrix / rotation of a vector; cos(atan2(im,re)) = re on the unit circle; evaluated in the valid-operand world (no renormalisation; C08 owns that branch). Originally listed as not applicable (DESIGN.md section 3); built once the polynomial extension of the table interpreter made it cheap (section 10.5).",
+    ),
     "C19": dict(
         level="proof", design="3/C19",
         technique="static analysis: compile-witness matrix decided by the C++ type checker (clang -fsyntax-only; g++ in thorough), plus AST linkage rule R-ODR",
@@ -112,7 +118,6 @@ CHECKS = {
 }
 
 NOT_APPLICABLE = {
-    "C01": "Algebraic identity between closed-form coefficient code and matrix products over all real/floating inputs; needs symbolic evaluation plus a solver or floating-point error bounds (a different technique family). No clause is decidable from the shape of the code that is not already owned by C04/C05/C13.",
     "C18": "Reflexivity at large coordinates, threshold behaviour and symmetry of isApprox depend on floating-point values of log(Y^-1 X); nothing about them is visible in the shape of the code. The only structural facts (operator== forwards to isApprox) are covered by C04's forwarding table.",
 }
 
